@@ -177,9 +177,13 @@ def expr(ctx, e):
         if op == "||":
             return "(%s ∨ %s)" % (A, B)
         raise TieBroken("unsupported operator %s" % op)
+    if k == "ifexpr":
+        return "(if %s then %s else %s)" % (expr(ctx, e[1]), expr(ctx, e[2]), expr(ctx, e[3]))
     if k == "mcall":
         recv, name, args = e[1], e[2], e[3]
         R = expr(ctx, recv)
+        if name == "is_nan" and not args:
+            return "(Num.isNaN %s = true)" % R
         if name == "abs" and not args:
             return "(Num.abs %s)" % R
         if name == "sqrt" and not args:
